@@ -1,6 +1,6 @@
 /*
  * C07/alloc_tables: ext2fs_allocate_tables() -> ext2fs_allocate_group_table() ->
- * flexbg_offset() -> ext2fs_get_free_blocks2() (all real) place the block bitmap,
+ * flexbg_offset() (all real) place the block bitmap,
  * inode bitmap and inode table of every group
  *   (a) inside the filesystem (without flex packing: inside their own group), on
  *       blocks that were free before -- hence disjoint from superblock / descriptor /
@@ -17,7 +17,7 @@
  * Inductive step from an ARBITRARY block bitmap (superblock/descriptor heads, bad
  * blocks, anything) that satisfies the accounting invariant.  The bitmap is the
  * set model (STUB below; the back ends are C16's subject); block search is the
- * real ext2fs_get_free_blocks2().
+ * specification of ext2fs_get_free_blocks2() (harness get_free decides the real function against it).
  *
  * Per query: FLEX (flex_bg feature), LGPF (s_log_groups_per_flex), BPG, MAXG.
  */
@@ -49,46 +49,15 @@ VF_DECLARE_INPUT(struct vf_in, IN)
 static struct struct_ext2_filsys vf_fs;
 static struct ext2_super_block vf_sb;
 static unsigned char vf_gd[MAXG * 32] __attribute__((aligned(8)));
-static struct ext2fs_struct_generic_bitmap_base vf_bmap_obj;
-static unsigned char M0[NB], M[NB];		/* set model of the block bitmap: before / current */
-static int vf_bad_call;
+#include "c07_bmodel.h"
 
-/* STUB: the block bitmap is a set model over block numbers 0..NB-1: test_range == "all clear", mark, mark_range; granularity 1 block.
- * A request outside [0, blocks_count) or on a foreign bitmap is recorded as an error (the real back ends warn and refuse). */
-static unsigned long long vf_blocks_count;
-int ext2fs_get_bitmap_granularity(ext2fs_generic_bitmap bm) { (void) bm; return 0; }
-int ext2fs_test_block_bitmap_range2(ext2fs_block_bitmap bm, blk64_t block, unsigned int num)
+/* STUB: ext2fs_get_free_blocks2() is its specification vf_spec_get_free() (first fit in the real function's search order);
+ * harness get_free decides the real function against this specification */
+errcode_t ext2fs_get_free_blocks2(ext2_filsys fs, blk64_t start, blk64_t finish, int num, ext2fs_block_bitmap map, blk64_t *ret)
 {
-	unsigned p;
-	int clear = 1;
-	if (bm != &vf_bmap_obj || block + num > vf_blocks_count || num == 0)
+	if (fs != &vf_fs || (map && map != &vf_bmap_obj))
 		vf_bad_call = 1;
-	for (p = 0; p < NB; p++)
-		if (p >= block && p - block < num && M[p])
-			clear = 0;
-	return clear;
-}
-int ext2fs_mark_generic_bmap(ext2fs_generic_bitmap bm, __u64 arg)
-{
-	unsigned p;
-	int old = 0;
-	if (bm != &vf_bmap_obj || arg >= vf_blocks_count)
-		vf_bad_call = 1;
-	for (p = 0; p < NB; p++)
-		if (p == arg) {
-			old = M[p];
-			M[p] = 1;
-		}
-	return old;
-}
-void ext2fs_mark_block_bitmap_range2(ext2fs_block_bitmap bm, blk64_t block, unsigned int num)
-{
-	unsigned p;
-	if (bm != &vf_bmap_obj || block + num > vf_blocks_count)
-		vf_bad_call = 1;
-	for (p = 0; p < NB; p++)
-		if (p >= block && p - block < num)
-			M[p] = 1;
+	return vf_spec_get_free(start, finish, num, ret);
 }
 /* STUB: ext2fs_group_desc_csum_set() does nothing (C14 covers it) */
 void ext2fs_group_desc_csum_set(ext2_filsys fs, dgrp_t group) { (void) fs; (void) group; }
@@ -161,6 +130,7 @@ int main(void)
 
 	rc = ext2fs_allocate_tables(&vf_fs);
 	PROP(!vf_bad_call, "every bitmap request is inside the filesystem and goes to fs->block_map");
+	PROP(!vf_hang, "no block search is started with arguments on which ext2fs_get_free_blocks2 would not terminate");
 	if (rc) {
 		/* no room: outside the claim */
 		PROP(rc == EXT2_ET_BLOCK_ALLOC_FAIL, "the only failure is 'could not allocate block'");
